@@ -28,6 +28,7 @@ Definition absev (s : state) (e : event) : sevent :=
   | BulkFail _ => SOther
   | Notify i => SReply i
   | Skip => SOther
+  | CloseSession _ => SOther
   | Tick _ => SOther
   | Timeout _ => SOther
   | End p => SEnd p
